@@ -93,66 +93,187 @@ def gen_data(rng, ncols, nrows, maxcard=4, declare_p=0.4, allow_unobs_states=Tru
 
 
 EXTRA_LABELS = ["a_unused", "s1_unused", "zz_unused"]
+CATLIKE = ("cat", "ocat")
+
+NAME_POOLS = {
+    "letters": ["A", "B", "C", "D", "E", "F", "G", "H", "I", "J", "K", "L"],
+    # one name a prefix / substring of another
+    "substr": ["x", "x1", "x10", "x1_", "x2", "xx", "G", "G2", "G20", "1x", "x_1", "x11"],
+    # names that mean something to pandas / pgmpy
+    "keyword": ["size", "index", "count", "values", "level_0", "variable", "value", "columns", "name", "T",
+                "dtype", "_weight"],
+    "odd": ["a b", "a", "b", "a b c", "A", "a.b", "a,b", "(a)", "a:b", "a'b", "β", "_"],
+}
+INDEX_MODES = ["range", "range", "shifted", "permuted", "gapped", "dup", "str"]
+
+
+def gen_labels(rng, style, c):
+    """an injective labelling state index -> value of the column (the scores are symmetric in the states, so the
+    model never needs the labels): integers that are not their positions, floats, booleans, strings of which one
+    is a prefix of another or that look like numbers / keywords, the same strings in every column"""
+    if style == "bool" and c > 2:
+        style = "int"
+    if style == "int":
+        return style, rng.choice([list(range(c)), list(range(1, c + 1)), list(range(c - 1, -1, -1)),
+                                  [10 * k + 3 for k in range(c)], [-k for k in range(c)], [7, 3, 5, 1][:c],
+                                  [10**6 + k for k in range(c)]])
+    if style == "float":
+        return style, rng.choice([[k + 0.5 for k in range(c)], [-1.25, 0.0, 2.5, 0.001][:c],
+                                  [1e6 + 0.25 * k for k in range(c)]])
+    if style == "bool":
+        return style, rng.choice([[False, True][:c], [True, False][:c]])
+    return style, rng.choice([["s%d" % k for k in range(c)], ["x", "x1", "x10", "x1_"][:c], ["1", "10", "2", "01"][:c],
+                              ["a", "b", "c", "d"][:c], ["True", "False", "None", "nan"][:c], ["b", "a", "B", " a"][:c]])
+
+
+def present(rng, data, plain=False):
+    """how the index-level data set is shown to pgmpy: column names, column order in the frame, row index, state
+    labels and dtypes, the form of the state_names argument.  None of it may change a score."""
+    n = len(data["cards"])
+    if plain:
+        return data
+    pool = rng.choice(["letters", "letters", "substr", "keyword", "odd"])
+    names = list(NAME_POOLS[pool])
+    rng.shuffle(names)
+    data["names"] = names[:n]
+    data["namepool"] = pool
+    order = list(range(n))
+    if rng.random() < 0.6:
+        rng.shuffle(order)
+    data["colorder"] = order
+    data["index"] = rng.choice(INDEX_MODES)
+    labels = []
+    for i in range(n):
+        st = data["style"][i]
+        if st == "int":
+            st = rng.choice(["int", "int", "float", "bool"])
+        elif st == "cat" and data["catmode"][i] == "tight":
+            st = rng.choice(["cat", "cat", "ocat", "obj"])
+        elif st == "cat":
+            st = rng.choice(["cat", "cat", "ocat"])
+        st, lab = gen_labels(rng, st, data["cards"][i])
+        data["style"][i] = st
+        labels.append(lab)
+    data["labels"] = labels
+    data["snform"] = rng.choice(["asis", "asis", "int", "extra-key", "tuple"])
+    return data
+
+
+def colnames(data):
+    return data.get("names") or COLS[:len(data["cards"])]
+
+
+def col_labels(data, i):
+    if "labels" in data:
+        return data["labels"][i]
+    return [float(k) if data["style"][i] == "int" else "s%d" % k for k in range(data["cards"][i])]
 
 
 def unused_labels(data, i, vals):
     """labels of column i that are categories of the dtype but never occur: for a column with declared
     state_names only declared-but-unobserved states (the dtype must stay within state_names), otherwise
     fresh labels sorting before / between / after the observed ones"""
+    lab = col_labels(data, i)
     if data["declared"][i]:
-        return ["s%d" % k for k in range(data["cards"][i]) if k not in set(vals)]
+        return [lab[k] for k in range(data["cards"][i]) if k not in set(vals)]
     k = 1 + (data["snseed"] + i) % 3
-    return EXTRA_LABELS[:k] if (data["snseed"] + i) % 2 else EXTRA_LABELS[3 - k:]
-
-
-def state_label(style, k):
-    return float(k) if style == "int" else "s%d" % k
+    ex = EXTRA_LABELS[:k] if (data["snseed"] + i) % 2 else EXTRA_LABELS[3 - k:]
+    return [e for e in ex if e not in lab]
 
 
 def build_df(data, rows=None):
+    """-> (DataFrame, state_names or None, column names by model index)"""
     import pandas as pd
     rows = data["rows"] if rows is None else rows
     n = len(data["cards"])
+    cn = colnames(data)
     catmode = data.get("catmode", ["tight"] * n)
     extra = {i: unused_labels(data, i, [r[i] for r in rows]) for i in range(n)
-             if data["style"][i] == "cat" and catmode[i] != "tight"}
+             if data["style"][i] in CATLIKE and catmode[i] != "tight"}
     extra = {i: e for i, e in extra.items() if e}
     filt = [i for i in extra if catmode[i] == "filter"]
     njunk = max([len(extra[i]) for i in filt], default=0)
     cols = {}
     for i in range(n):
-        vals = [r[i] for r in rows]
-        if data["style"][i] == "int":
-            cols[COLS[i]] = vals + [vals[0]] * njunk
+        lab = col_labels(data, i)
+        vals = [lab[r[i]] for r in rows]
+        st = data["style"][i]
+        if st not in CATLIKE:
+            allv = vals + [vals[0]] * njunk
+            if st == "obj":
+                cols[cn[i]] = pd.Series(allv, dtype=object)
+            elif st == "int" and "labels" not in data:
+                cols[cn[i]] = [int(v) for v in allv]
+            else:
+                cols[cn[i]] = allv
             continue
-        labels = ["s%d" % v for v in vals]
-        cats = sorted(set(labels))
+        cats = sorted(set(vals))
         if i in filt:
             # the removed rows carry the extra labels
             junk = [extra[i][t % len(extra[i])] for t in range(njunk)]
-            cols[COLS[i]] = pd.Categorical(labels + junk, categories=sorted(set(cats + junk)))
+            allv, cats = vals + junk, sorted(set(cats + junk))
         else:
+            allv = vals + [vals[0]] * njunk
             if i in extra:
                 cats = sorted(set(cats + extra[i]))
-            cols[COLS[i]] = pd.Categorical(labels + [labels[0]] * njunk, categories=cats)
-    df = pd.DataFrame(cols, columns=COLS[:n])
+        if st == "ocat":
+            random.Random(data["snseed"] + i).shuffle(cats)
+        cols[cn[i]] = pd.Categorical(allv, categories=cats, ordered=(st == "ocat"))
+    order = data.get("colorder", list(range(n)))
+    df = pd.DataFrame(cols, columns=[cn[i] for i in order])
+    nr = len(rows) + njunk
+    mode = data.get("index", "range")
+    irng = random.Random(data["snseed"] + 17)
+    if mode == "shifted":
+        df.index = range(5, 5 + nr)
+    elif mode == "permuted":
+        idx = list(range(nr))
+        irng.shuffle(idx)
+        df.index = idx
+    elif mode == "gapped":
+        df.index = [3 * t + (t % 2) for t in range(nr)]
+    elif mode == "dup":
+        df.index = [t // 3 for t in range(nr)]
+    elif mode == "str":
+        df.index = ["r%d" % (t % 7) for t in range(nr)]
     if njunk:
-        df = df[[True] * len(rows) + [False] * njunk].reset_index(drop=True)
+        df = df[[True] * len(rows) + [False] * njunk]
+        if mode == "range":
+            df = df.reset_index(drop=True)
     sn = {}
     rng = random.Random(data["snseed"])
+    form = data.get("snform", "asis")
     for i in range(n):
         if data["declared"][i]:
-            labels = [state_label(data["style"][i], k) for k in range(data["cards"][i])]
+            labels = list(col_labels(data, i))
             rng.shuffle(labels)
-            sn[COLS[i]] = labels
-    return df, (sn if sn else None)
+            if form == "int" and data["style"][i] == "int":
+                labels = [int(v) for v in labels]
+            elif "labels" in data and data["style"][i] == "int" and form != "int":
+                labels = [float(v) for v in labels]
+            if form == "tuple":
+                labels = tuple(labels)
+            sn[cn[i]] = labels
+    if sn and form == "extra-key":
+        sn["__not_a_column__"] = ["u", "v"]
+    return df, (sn if sn else None), cn
 
 
-def scorers(df, sn, ess):
+def frame_sig(df, sn):
+    """everything observable about the caller's frame and state_names (argument purity)"""
+    import pandas as pd
+    cats = [(str(df[c].dtype), list(df[c].cat.categories) if isinstance(df[c].dtype, pd.CategoricalDtype) else None)
+            for c in df.columns]
+    return repr((list(df.columns), list(df.index), cats, df.astype(object).values.tolist(),
+                 sorted((repr(k), repr(v)) for k, v in (sn or {}).items())))
+
+
+def scorers(df, sn, ess, ess_default=False):
     from pgmpy.estimators import K2Score, BDeuScore, BDsScore, BicScore, AICScore
     kw = {"state_names": sn} if sn else {}
-    return {"k2": K2Score(df, **kw), "bdeu": BDeuScore(df, equivalent_sample_size=ess, **kw),
-            "bds": BDsScore(df, equivalent_sample_size=ess, **kw), "bic": BicScore(df, **kw),
+    ekw = {} if (ess_default and ess == 10) else {"equivalent_sample_size": ess}
+    return {"k2": K2Score(df, **kw), "bdeu": BDeuScore(df, **ekw, **kw),
+            "bds": BDsScore(df, **ekw, **kw), "bic": BicScore(df, **kw),
             "aic": AICScore(df, **kw)}
 
 
